@@ -59,8 +59,8 @@ func c11OprfScenarios() []sched.Scenario {
 			return out[0]
 		}
 		scs = append(scs,
-			sched.Scenario{Name: "oprf/" + name + "/PublicKey||PublicKey", Setup: fresh, Threads: []func(interface{}) interface{}{pub, pub}},
-			sched.Scenario{Name: "oprf/" + name + "/PublicKey||FullEvaluate||Round", Setup: fresh, Threads: []func(interface{}) interface{}{pub, full, round}})
+			sched.Scenario{Cost: 20, Name: "oprf/" + name + "/PublicKey||PublicKey", Setup: fresh, Threads: []func(interface{}) interface{}{pub, pub}},
+			sched.Scenario{Cost: 20, Name: "oprf/" + name + "/PublicKey||FullEvaluate||Round", Setup: fresh, Threads: []func(interface{}) interface{}{pub, full, round}})
 	}
 	return scs
 }
